@@ -118,11 +118,13 @@ Definition prev_offset (fx : fixes) (r : reader) : res Z :=
        end.
 
 Definition set_eqb (a b : list Z) : bool := forallb (fun x => memZ x b) a && forallb (fun x => memZ x a) b.
-(* lines 523-539 *)
-Definition apply_source_ids (r : reader) (s : option (list Z)) : reader :=
+(* filter_in_place, "Set requested source IDs": the request is kept as given and every message is tested when it
+   is read (was: the request was replaced by its intersection with the ids seen in the discovery sample) *)
+Definition apply_source_ids (fx : fixes) (r : reader) (s : option (list Z)) : reader :=
   match s with
   | None => r
-  | Some ids => set_srcs r (Some (if set_eqb (r_avail r) ids then ids else filter (fun x => memZ x (r_avail r)) ids))
+  | Some ids => set_srcs r (Some (if fx_srcs_as_requested fx then ids
+                                  else if set_eqb (r_avail r) ids then ids else filter (fun x => memZ x (r_avail r)) ids))
   end.
 
 (* filter_in_place(key, clear_existing=clear, source_ids=s); an exception from index[key] leaves the
@@ -132,7 +134,7 @@ Definition filter_in_place (fx : fixes) (r : reader) (k : key) (clear : bool) (s
   | Err x => (r, Err x)
   | Ok prev =>
       let r1 := if clear then set_index r (r_orig r) else r in
-      let r2 := apply_source_ids r1 s in
+      let r2 := apply_source_ids fx r1 s in
       match getitem fx (r_index r2) k with
       | Err x => (r2, Err x)
       | Ok i => (set_next (set_index r2 i) (relocate (fi_data i) prev), Ok tt)
